@@ -47,6 +47,13 @@ def an_extraction():
         stackscope.extract_until(sys._getframe(0), limit=1, with_contexts=False)
 
 
+class PlainEntry:
+    """not a module: an arbitrary object sitting in sys.modules"""
+
+    def __init__(self, name):
+        self.__name__ = name
+
+
 class FalsyCallable:
     def __init__(self, fn):
         self.fn = fn
@@ -77,7 +84,9 @@ class World:
         self.cmd = {}
         self.workers = {}
         self.stop = False
-        self.modobj = {m: types.ModuleType(zz(m)) for m in self.mods}
+        # sys.modules entries need not be module objects (a module may replace itself there by any object: a lazy
+        # proxy, a class instance): every second synthetic "module" is a plain object with an instance __dict__
+        self.modobj = {m: (types.ModuleType(zz(m)) if k % 2 == 0 else PlainEntry(zz(m))) for k, m in enumerate(self.mods)}
         self.cache = _glue.add_glue_as_needed.__kwdefaults__["_sys_modules_len_cache"]
         _verif.sink = self.sink
 
